@@ -124,6 +124,15 @@ Theorem surface_row_guards_shape :
 Proof. vm_compute. reflexivity. Qed.
 Print Assumptions surface_row_guards_shape.
 
+(* --- CD-MUSIC plane 0: the master-charge part of sigma0 adds sites * z_master over the comp_unknowns of the charge unknown (regenerated
+   loop body), and setup_surface (prep.cpp) appends the site unknown of EVERY site type of the surface to that list: exactly one
+   registration statement, inside the component loop only (not the per-plane loop), under no condition on the plane or on the
+   existence of the charge unknown (regenerated statement context; boolean check on generated data) --- *)
+Theorem cd_music_plane0_counts_every_site_type :
+  (forall m z, evalR (env_of [m; z]) cd_sum0_term = m * z) /\ cd_comp_registration_ok = true.
+Proof. split; [exact Guards.cd_sum0_term_form | vm_compute; reflexivity]. Qed.
+Print Assumptions cd_music_plane0_counts_every_site_type.
+
 (* --- -diffuse_layer: in calc_all_g (integrate.cpp) the cache of already integrated charge numbers is declared (or cleared) inside the
    loop over the SURFACE_CB unknowns and looked up inside the species loop, i.e. every charged surface gets its own excess
    integrals (regenerated loop structure; boolean check on generated data) --- *)
@@ -177,7 +186,7 @@ Theorem verified_interval_checkers_sound :
     Rabs (sigma_of_species (to_R l) (Q2R A) (Q2R g) - gc) <= / 100000000 * Rabs gc) /\
   (forall l A g psi mu eps tk, check_ddl_loose l A g psi mu eps tk = true ->
     let gc := gouy_chapman (Q2R eps) (Q2R tk) (Q2R mu) (Q2R psi) in
-    Rabs (sigma_of_species (to_R l) (Q2R A) (Q2R g) - gc) <= / 1000000 * Rabs gc) /\
+    Rabs (sigma_of_species (to_R l) (Q2R A) (Q2R g) - gc) <= / 10000 * Rabs gc) /\
   (forall l A g ions psi eps tk, check_grahame l A g ions psi eps tk = true ->
     let gr := grahame (Q2R eps) (Q2R tk) (to_R (balancing_ion ions :: ions)) (Q2R psi) in
     Rabs (sigma_of_species (to_R l) (Q2R A) (Q2R g) - gr) <= / 100000000 * Rabs gr) /\
